@@ -22,11 +22,11 @@ import (
 const tqvToken = "S3cr3t-Tqv-T0ken"
 
 type tqvResp struct {
-	replies  []string
-	next     tq.Handler
-	writers  []tq.Writer
-	ctx      context.Context
-	hdr      tq.Header
+	replies []string
+	next    tq.Handler
+	writers []tq.Writer
+	ctx     context.Context
+	hdr     tq.Header
 }
 
 func (r *tqvResp) Reply(v tq.EncoderDecoder) (int, error) {
@@ -64,10 +64,18 @@ func (r *tqvResp) Context(ctx context.Context)     { r.ctx = ctx }
 
 type tqvLog struct{ seen []string }
 
-func (l *tqvLog) msg(format string, args ...interface{}) { l.seen = append(l.seen, fmt.Sprintf(format, args...)) }
-func (l *tqvLog) Infof(ctx context.Context, format string, args ...interface{})  { l.msg(format, args...) }
-func (l *tqvLog) Errorf(ctx context.Context, format string, args ...interface{}) { l.msg(format, args...) }
-func (l *tqvLog) Debugf(ctx context.Context, format string, args ...interface{}) { l.msg(format, args...) }
+func (l *tqvLog) msg(format string, args ...interface{}) {
+	l.seen = append(l.seen, fmt.Sprintf(format, args...))
+}
+func (l *tqvLog) Infof(ctx context.Context, format string, args ...interface{}) {
+	l.msg(format, args...)
+}
+func (l *tqvLog) Errorf(ctx context.Context, format string, args ...interface{}) {
+	l.msg(format, args...)
+}
+func (l *tqvLog) Debugf(ctx context.Context, format string, args ...interface{}) {
+	l.msg(format, args...)
+}
 func (l *tqvLog) Record(ctx context.Context, r map[string]string, obscure ...string) {
 	hide := map[string]bool{}
 	for _, k := range obscure {
@@ -115,10 +123,10 @@ func (tqvCfg) GetUser(user string) *config.AAA {
 }
 
 type tqvStep struct {
-	start  *tq.AuthenStart
-	cont   *tq.AuthenContinue
-	raw    []byte
-	minor  uint8
+	start *tq.AuthenStart
+	cont  *tq.AuthenContinue
+	raw   []byte
+	minor uint8
 }
 
 func TestTqvWitness(t *testing.T) {
